@@ -17,7 +17,7 @@ What it does
 * `b2_list_file_names`: newest *visible* version per name, names in UTF-8 byte order, `>= startFileName`, with `prefix`,
   at most `min(page_size, maxFileCount)` per page, `nextFileName` = the next name or null;
 * file names in URLs and in `X-Bz-File-Name` are percent-decoded the way B2 documents it (UTF-8, `+` decodes to a space);
-  names with control characters, a leading `/`, `//`, or longer than 1024 bytes are rejected (400 `bad_request`);
+  names with control characters, DEL, a backslash, a leading `/`, `//`, or longer than 1024 bytes are rejected (400 `bad_request`);
 * `Content-Length` is enforced on uploads; `X-Bz-Content-Sha1` is verified unless `do_not_verify`.
 
 Fault hook: `fault(request) -> None | httpx.Response | BaseException`, consulted first on every request.
@@ -84,7 +84,7 @@ class FakeB2:
             return False
         if name.startswith('/') or '//' in name:
             return False
-        return all(ord(c) >= 32 and ord(c) != 127 for c in name)
+        return all(ord(c) >= 32 and ord(c) != 127 and c != '\\' for c in name)
 
     # ------------------------------------------------------------------ handler
     async def handler(self, request):
